@@ -16,7 +16,8 @@ RULE = (
     "target weights, stat frames), a generated cut date t and a generated perturbation of every supplied value dated after t (prices x random factors, late listings appearing, future data gaps, spreads, signals flipped, target weights and statistics replaced; index and columns untouched). Both runs use identical RNG seeds. Every node history truncated at t "
     "(prices, values, positions, cash, fees, flows, outlays, bid/offer paid, notional values) and the transactions dated <= t must be bit-identical (NaN == NaN); a node present in one run "
     "only must be flat up to t; an exception must be the same and raised on the same date if it is raised at or before t. non-trivial = the two runs differ somewhere after t and at least "
-    "one trade happened at or before t. distinct = distinct spec hashes."
+    "one trade happened at or before t. blotter: the same relation for ReplayTransactions / SimulateRFQTransactions fed with transaction / RFQ lists whose rows carry their own stamps (on and between bars) in time order, grouped by security or shuffled, "
+    "rows stamped after t perturbed; plus the schedule itself (position on each bar == sum of the rows stamped up to it). distinct = distinct spec hashes."
 )
 ASSUMPTIONS = ["only stock algos are quantified (user-written algos can look ahead at will)", "index and columns of the supplied frames are not perturbed"]
 BUILDS = {"quick": ["py"], "thorough": ["py", "cy"]}
@@ -85,6 +86,14 @@ def perturb(spec):
             for sub in fr["frames"].values():
                 for c, col in sub.items():
                     change(col, spec["dates"])
+        elif kind == "blotter":
+            import pandas as pd
+
+            for r in fr["rows"]:
+                if pd.Timestamp(r[0]) > pd.Timestamp(cutd):
+                    x = f()
+                    r[2] = round(r[2] * (x if x != 0.0 else -1.5), 6)
+                    r[3] = round(r[3] * max(f(), 0.5), 6)
         # 'table' frames (close / roll dates per security) are not dated rows
     return s2
 
@@ -376,6 +385,85 @@ def anchored_lag_spec(draw):
     return spec
 
 
+# ---- blotters: transaction / RFQ lists with their own time stamps ---------------------------------------------
+@st.composite
+def blotter_spec(draw):
+    """ReplayTransactions / SimulateRFQTransactions execute, on each bar, the rows stamped after the previous bar and no later than this
+    one. The rows carry arbitrary stamps (between bars too) and the frame need not be sorted by time (grouped by instrument, two desks
+    concatenated): a row stamped after t must not act at or before t."""
+    import datetime as dt
+
+    ds = draw(gen.dates(4, 12, kinds=("bday", "daily", "mixed")))
+    n = len(ds)
+    nt = draw(st.integers(1, 3))
+    tickers = gen.TICKERS[:nt]
+    pr = {t: draw(gen.price_path(n, vol=0.02, decimals=4)) for t in tickers}
+    rows = []
+    for _ in range(draw(st.integers(2, 12))):
+        i = draw(st.integers(0, n - 1))
+        t = draw(st.sampled_from(tickers))
+        stamp = ds[i] if draw(st.booleans()) else (dt.datetime.fromisoformat(ds[i]) - dt.timedelta(hours=draw(st.sampled_from([1, 5, 11])))).isoformat()
+        q = float(draw(st.integers(1, 300)) * draw(st.sampled_from([1, 1, -1])))
+        rows.append([stamp, t, q, round(pr[t][i] * draw(st.sampled_from([1.0, 0.99, 1.01, 1.002])), 4)])
+    order = draw(st.sampled_from(["sorted", "by_security", "shuffled", "shuffled"]))
+    if order == "sorted":
+        rows.sort(key=lambda r: (r[0][:10], r[0]))
+        rows.sort(key=lambda r: dt.datetime.fromisoformat(r[0]))
+    elif order == "by_security":
+        rows.sort(key=lambda r: dt.datetime.fromisoformat(r[0]))
+        rows.sort(key=lambda r: r[1])
+    else:
+        rows = draw(st.permutations(rows))
+    algo = draw(st.sampled_from([["ReplayTransactions", {"frame": "tx"}], ["SimulateRFQTransactions", {"frame": "tx", "min_qty": draw(st.sampled_from([0.0, 50.0]))}]]))
+    spec = {
+        "family": "blotter",
+        "order": order,
+        "dates": ds,
+        "prices": pr,
+        "rng_seed": 0,
+        "frames": {"tx": {"kind": "blotter", "rows": [list(r) for r in rows]}},
+        "additional": ["tx"],
+        "bidoffer": {},
+        "integer_positions": False,
+        "initial_capital": 1e7,
+        "fee": draw(gen.fee_spec(gen.min_price(pr), kinds=("none", "prop"))),
+        "tree": {"name": "root", "kind": "Strategy", "algos": [algo], "children": [{"sec": t, "kind": "Security", "mult": draw(st.sampled_from([1.0, 1.0, 10.0]))} for t in tickers]},
+    }
+    spec["perturb"] = {"cut": draw(st.integers(0, n - 2)), "factors": draw(st.lists(st.sampled_from([0.5, 0.7, 0.9, 1.1, 1.4, 2.0, 0.0]), min_size=5, max_size=20)), "list_early": False, "delist": None}
+    return spec
+
+
+def case_blotter(ctx, spec):
+    import pandas as pd
+
+    bt = ctx.bt
+    res = case_pair(ctx, spec)
+    # independent schedule: the position on each bar is the sum of the rows stamped up to that bar (rows below the model's size floor skipped)
+    base = {k: v for k, v in spec.items() if k not in ("perturb", "family", "order")}
+    interp.seed_rngs(base)
+    b = interp.mk_backtest(bt, base)
+    try:
+        with contextlib.redirect_stdout(io.StringIO()):
+            b.run()
+    except Exception as e:
+        raise Discard("run raised (C10's business): %s" % type(e).__name__)
+    algo = spec["tree"]["algos"][0]
+    floor = algo[1].get("min_qty", 0.0)
+    bars = [pd.Timestamp(d) for d in spec["dates"]]
+    rows = spec["frames"]["tx"]["rows"]
+    first = bars[0] - pd.DateOffset(days=1)
+    out_of_order = any(pd.Timestamp(a[0]) > pd.Timestamp(b_[0]) for a, b_ in zip(rows, rows[1:]))
+    for t in spec["prices"]:
+        got = np.asarray(b.strategy.children[t].positions.loc[bars[0] :], dtype=float)
+        for i, bar in enumerate(bars):
+            exp = sum(r[2] for r in rows if r[1] == t and abs(r[2]) >= floor and first < pd.Timestamp(r[0]) <= bar)
+            if abs(got[i] - exp) > 1e-9 * max(1.0, abs(exp)):
+                raise Violation("%s of a blotter in %s order: position of %s on %s is %r, the rows stamped up to then add up to %r (rows %s)" % (algo[0], spec["order"], t, bar, got[i], exp, rows), signature="lookahead:blotter-schedule")
+    res["labels"] = ["family=blotter", "order=" + spec["order"], algo[0]] + (["rows_out_of_time_order"] if out_of_order else [])
+    res["nontrivial"] = bool(res["nontrivial"] and out_of_order)
+    return res
+
+
 @st.composite
 def pair_spec(draw):
     k = draw(st.integers(0, 21))
@@ -422,9 +510,10 @@ def pair_spec(draw):
     return spec
 
 
-SUBS = {"pair": case_pair}
-STRATS = {"pair": pair_spec}
+SUBS = {"pair": case_pair, "blotter": case_blotter}
+STRATS = {"pair": pair_spec, "blotter": blotter_spec}
 
 
 def shard(ctx):
     run_sub(ctx, "pair", pair_spec(), lambda s: case_pair(ctx, s), ctx.n(5000, 60000))
+    run_sub(ctx, "blotter", blotter_spec(), lambda s: case_blotter(ctx, s), ctx.n(800, 12000))
